@@ -773,7 +773,7 @@ pub(crate) fn solve_expression(
                 Value::Object(o) => solve_expression(e, identifiers, &o),
                 Value::Array(a) => {
                     if let Expression::Match(Match::All, expression) = &**e {
-                        if let Expression::BooleanGroup(BoolSym::Or, expressions) = &**expression {
+                        if let Expression::BooleanGroup(BoolSym::And, expressions) = &**expression {
                             #[cfg(feature = "verif")]
                             crate::verif::hit(crate::verif::Arm::SOLVE_NESTED_ARRAY_ALL_OR);
                             for expression in expressions {
